@@ -281,6 +281,7 @@ def replay(case):
 def main():
     t = common.tier()
     chk = common.Check(PID, 'exploration')
+    chk.unexercised_whats = {'init-failed', 'snapshot-failed'}   # a failing command is not what C14 is about: reported as 'could not exercise'
     try:
         rcases = []
         for ti in range(len(TREES)):
